@@ -303,30 +303,6 @@ fn gen_conditions(ctx: &mut Ctx) -> Result<String, String> {
         let inherits = body[..end].contains("constHOT_RELOADED:bool=T::HOT_RELOADED;");
         out.push_str(&format!("/-- `Arc<T>` is hot-reloaded iff `T` is (`const HOT_RELOADED: bool = T::HOT_RELOADED` in `impl Compound for Arc<T>`) -/\ndef arcInheritsHotReloaded : Bool := {inherits}\n\n"));
     }
-    // `impl<T: DirLoadable> DirLoadable for Arc<T>`: both methods are T's (the trait has a default for `sub_directories`,
-    // so a missing forwarder still compiles and silently walks the source's directories instead of T's)
-    {
-        let dirs_src: String = std::fs::read_to_string(ctx.repo.join("src/dirs.rs")).map_err(|e| e.to_string())?.chars().filter(|c| !c.is_whitespace()).collect();
-        let start = dirs_src.find("impl<T>DirLoadableforstd::sync::Arc<T>whereT:DirLoadable,{").ok_or("dirs.rs: `impl<T> DirLoadable for Arc<T>` not found")?;
-        let body = &dirs_src[start..];
-        let end = body.find("pubstructDirectory<T>").unwrap_or(body.len().min(900));
-        let fwd = body[..end].contains("fnselect_ids(cache:AnyCache,id:&SharedString)->io::Result<Vec<SharedString>>{T::select_ids(cache,id)}")
-            && body[..end].contains("fnsub_directories(cache:AnyCache,id:&SharedString,f:implFnMut(&str))->io::Result<()>{T::sub_directories(cache,id,f)}");
-        out.push_str(&format!("/-- `Arc<T>` lists a directory exactly as `T` does: `select_ids` AND `sub_directories` forward to `T` -/\ndef arcDirLoadableForwards : Bool := {fwd}\n\n"));
-    }
-    // `impl Compound for OnceInitCell<U, T>` and `for OnceInitCell<Option<U>, T>` (feature `utils`): HOT_RELOADED is U's
-    {
-        let cell_src: String = std::fs::read_to_string(ctx.repo.join("src/utils/cell.rs")).map_err(|e| e.to_string())?.chars().filter(|c| !c.is_whitespace()).collect();
-        let n_impls = cell_src.matches("CompoundforOnceInitCell<").count();
-        let mut ok = n_impls == 2;
-        for head in ["CompoundforOnceInitCell<U,T>{", "CompoundforOnceInitCell<Option<U>,T>{"] {
-            match cell_src.find(head) {
-                Some(at) => { let body = &cell_src[at..]; let end = body[1..].find("impl<").map(|e| e + 1).unwrap_or(body.len()); if !body[..end].contains("constHOT_RELOADED:bool=U::HOT_RELOADED;") { ok = false; } }
-                None => ok = false,
-            }
-        }
-        out.push_str(&format!("/-- both `Compound` impls of `OnceInitCell` (plain and `Option` seed) are hot-reloaded iff the wrapped type is -/\ndef cellInheritsHotReloaded : Bool := {ok}\n\n"));
-    }
     // Record::insert_*: every insertion is guarded by the identity of the reloader
     {
         let rec = ctx.file("src/hot_reloading/records.rs")?.clone();
@@ -501,15 +477,65 @@ fn gen_locks(ctx: &mut Ctx) -> Result<String, String> {
     Ok(format!("/-- `Condvar::wait_while` re-checks its condition after every wake-up (std locks) -/\ndef waitWhileRechecksStd : Bool := {std_ok}\n/-- the same with the `parking_lot` feature -/\ndef waitWhileRechecksParkingLot : Bool := {pl_ok}\n\n"))
 }
 
-pub fn gen(ctx: &mut Ctx) -> Result<String, String> {
-    let mut out = String::from("import AmVerif.Model.Core\n\nnamespace AmVerif.Gen\nopen AmVerif.Model\n\n/-- `error::ErrorKind` -/\ninductive EK\n  | noDefault\n  | io (e : IoErr)\n  | conv (tag : String)\n  deriving DecidableEq, Repr\n\n");
-    out.push_str(&gen_error_or(ctx)?);
-    out.push_str(&gen_load_from_source(ctx)?);
-    out.push_str(&gen_conditions(ctx)?);
-    out.push_str("/-- `usize::next_power_of_two` (smallest power of two ≥ n; 1 for 0) -/\ndef nextPow2Aux : Nat → Nat → Nat → Nat\n  | 0, p, _ => p\n  | f + 1, p, n => if p ≥ n then p else nextPow2Aux f (2 * p) n\ndef nextPow2 (n : Nat) : Nat := nextPow2Aux n 1 n\n\n");
-    out.push_str(&gen_shards(ctx)?);
-    out.push_str(&gen_casts(ctx)?);
-    out.push_str(&gen_locks(ctx)?);
-    out.push_str("end AmVerif.Gen\n");
+/// facts about wrapper impls that only property theorems use (no model definition depends on them)
+fn gen_facts_body(ctx: &mut Ctx) -> Result<String, String> {
+    let mut out = String::new();
+    // `impl<T: DirLoadable> DirLoadable for Arc<T>`: both methods are T's (the trait has a default for `sub_directories`,
+    // so a missing forwarder still compiles and silently walks the source's directories instead of T's)
+    {
+        let dirs_src: String = std::fs::read_to_string(ctx.repo.join("src/dirs.rs")).map_err(|e| e.to_string())?.chars().filter(|c| !c.is_whitespace()).collect();
+        let start = dirs_src.find("impl<T>DirLoadableforstd::sync::Arc<T>whereT:DirLoadable,{").ok_or("dirs.rs: `impl<T> DirLoadable for Arc<T>` not found")?;
+        let body = &dirs_src[start..];
+        let end = body.find("pubstructDirectory<T>").unwrap_or(body.len().min(900));
+        let fwd = body[..end].contains("fnselect_ids(cache:AnyCache,id:&SharedString)->io::Result<Vec<SharedString>>{T::select_ids(cache,id)}")
+            && body[..end].contains("fnsub_directories(cache:AnyCache,id:&SharedString,f:implFnMut(&str))->io::Result<()>{T::sub_directories(cache,id,f)}");
+        out.push_str(&format!("/-- `Arc<T>` lists a directory exactly as `T` does: `select_ids` AND `sub_directories` forward to `T` -/\ndef arcDirLoadableForwards : Bool := {fwd}\n\n"));
+    }
+    // `impl Compound for OnceInitCell<U, T>` and `for OnceInitCell<Option<U>, T>` (feature `utils`): HOT_RELOADED is U's
+    {
+        let cell_src: String = std::fs::read_to_string(ctx.repo.join("src/utils/cell.rs")).map_err(|e| e.to_string())?.chars().filter(|c| !c.is_whitespace()).collect();
+        let n_impls = cell_src.matches("CompoundforOnceInitCell<").count();
+        let mut ok = n_impls == 2;
+        for head in ["CompoundforOnceInitCell<U,T>{", "CompoundforOnceInitCell<Option<U>,T>{"] {
+            match cell_src.find(head) {
+                Some(at) => { let body = &cell_src[at..]; let end = body[1..].find("impl<").map(|e| e + 1).unwrap_or(body.len()); if !body[..end].contains("constHOT_RELOADED:bool=U::HOT_RELOADED;") { ok = false; } }
+                None => ok = false,
+            }
+        }
+        out.push_str(&format!("/-- both `Compound` impls of `OnceInitCell` (plain and `Option` seed) are hot-reloaded iff the wrapped type is -/\ndef cellInheritsHotReloaded : Bool := {ok}\n\n"));
+    }
     Ok(out)
+}
+
+const HEAD: &str = "namespace AmVerif.Gen\nopen AmVerif.Model\n\n";
+const TAIL: &str = "end AmVerif.Gen\n";
+
+/// `error::ErrorKind` and `ErrorKind::or`
+pub fn gen_err(ctx: &mut Ctx) -> Result<String, String> {
+    Ok(format!("import AmVerif.Model.Core\n\n{HEAD}/-- `error::ErrorKind` -/\ninductive EK\n  | noDefault\n  | io (e : IoErr)\n  | conv (tag : String)\n  deriving DecidableEq, Repr\n\n{}{TAIL}", gen_error_or(ctx)?))
+}
+/// `asset::load_from_source`
+pub fn gen_load(ctx: &mut Ctx) -> Result<String, String> {
+    Ok(format!("import AmVerif.Gen.TabErr\n\n{HEAD}{}{TAIL}", gen_load_from_source(ctx)?))
+}
+/// conditions and repaired-behaviour flags the World / Reload models compute with
+pub fn gen_cond(ctx: &mut Ctx) -> Result<String, String> {
+    Ok(format!("import AmVerif.Model.Core\n\n{HEAD}{}{TAIL}", gen_conditions(ctx)?))
+}
+pub fn gen_facts(ctx: &mut Ctx) -> Result<String, String> {
+    Ok(format!("import AmVerif.Model.Core\n\n{HEAD}{}{TAIL}", gen_facts_body(ctx)?))
+}
+/// shard arithmetic of the sharded map
+pub fn gen_shard(ctx: &mut Ctx) -> Result<String, String> {
+    Ok(format!("import AmVerif.Model.Core\n\n{HEAD}/-- `usize::next_power_of_two` (smallest power of two ≥ n; 1 for 0) -/\ndef nextPow2Aux : Nat → Nat → Nat → Nat\n  | 0, p, _ => p\n  | f + 1, p, n => if p ≥ n then p else nextPow2Aux f (2 * p) n\ndef nextPow2 (n : Nat) : Nat := nextPow2Aux n 1 n\n\n{}{TAIL}", gen_shards(ctx)?))
+}
+pub fn gen_cast(ctx: &mut Ctx) -> Result<String, String> {
+    Ok(format!("import AmVerif.Model.Core\n\n{HEAD}{}{TAIL}", gen_casts(ctx)?))
+}
+pub fn gen_lock(ctx: &mut Ctx) -> Result<String, String> {
+    Ok(format!("import AmVerif.Model.Core\n\n{HEAD}{}{TAIL}", gen_locks(ctx)?))
+}
+/// umbrella: everything (for files that need several groups); breaks when any group is refused
+pub fn gen(_ctx: &mut Ctx) -> Result<String, String> {
+    Ok("import AmVerif.Gen.TabErr\nimport AmVerif.Gen.TabLoad\nimport AmVerif.Gen.TabCond\nimport AmVerif.Gen.TabFacts\nimport AmVerif.Gen.TabShard\nimport AmVerif.Gen.TabCast\nimport AmVerif.Gen.TabLock\n".to_string())
 }
